@@ -147,10 +147,7 @@ class Scenario:
     # ---- lookup used by handlers
     def lookup(self, side):
         sid = self.world.last_recv_sid.get(side)
-        q = self.world.sid_queue.get((OTHER[side], sid))
-        # ids are reused after wrap-around and frames may be delivered late: the k-th request received on an id belongs
-        # to the k-th interaction issued with it (per-stream wire order is FIFO)
-        uid = q.popleft() if q else None
+        uid = self.world.take(OTHER[side], sid, self.world.last_recv_cx.get(side, 0))
         return sid, uid
 
 
@@ -175,6 +172,9 @@ def make_handler_class(scn, side):
 
         async def on_close(self, rsocket, exception=None):
             self._ev('on_close', exc=repr(exception) if exception else None)
+            if side == 'c' and scn.cfg.get('on_close_reconnect'):
+                self._ev('reconnect_call', where='on_close')
+                await rsocket.reconnect()
 
         async def on_error(self, error_code, payload):
             d, m = A.pl(payload)
@@ -187,6 +187,7 @@ def make_handler_class(scn, side):
             self._ev('on_keepalive_timeout', since=time_since_last_keepalive.total_seconds())
             hook = scn.cfg.get('on_ka_timeout')
             if hook == 'reconnect':
+                self._ev('reconnect_call', where='on_keepalive_timeout')
                 await rsocket.reconnect()
 
         async def on_metadata_push(self, payload):
@@ -576,6 +577,8 @@ async def _execute(loop, program, observe=None):
                         index=index)
         c.tag()
         conn.conns.append(c)
+        c.set_auto(conn.auto)
+        world.cur_cx = index
         world.ev('net', 'connection_opened', cx=index)
         if raw_side:
             r = RawPeer(world, c, raw_side)
@@ -593,6 +596,7 @@ async def _execute(loop, program, observe=None):
             c.transport['c'].connect_script = tuple(connect_scripts[index])
         return c
 
+    conn.set_auto(cfg.get('regime', 'pumped') == 'pumped')
     open_connection(0)
     raw = scn.raw
     connect_task = None
@@ -665,6 +669,7 @@ async def _execute(loop, program, observe=None):
                 l.deliver_bytes(op[2] if len(op) > 2 else None)
         elif name == 'regime':
             regime['mode'] = op[1]
+            conn.set_auto(op[1] == 'pumped')
         elif name == 'settle':
             await simnet.run_until_quiet(loop, [conn])
         elif name == 'mark':
@@ -715,6 +720,9 @@ async def _execute(loop, program, observe=None):
         elif name == 'lease':
             if lease_pub is not None:
                 lease_pub.publish(op[1], op[2])
+        elif name == 'blackhole':
+            world.ev('net', 'blackhole', link=op[1])
+            conn.link[op[1]].blackhole = True
         elif name == 'reconnect':
             if 'c' in scn.sock:
                 world.ev('c', 'reconnect_call')
@@ -767,6 +775,7 @@ async def _execute(loop, program, observe=None):
     quiet = True
     if program.get('heal', True):
         regime['mode'] = 'pumped'
+        conn.set_auto(True)
         conn.unblock('c')
         conn.unblock('s')
 
